@@ -398,14 +398,15 @@ class C17(Prop):
             a = src.index("\n%s (program_t * prog)" % fn)
             text = src[a:src.index("return 1;", a)]
             text = re.sub(r"#\s*(ifdef|endif)[^\n]*", "", text)
-            cond = re.search(r"if\s*\(prog->type_start\)\s*\{(.*?)\}", text, re.S)
-            if not cond:
-                raise X.TieBroken("binaries.c:%s" % fn, "the `if (prog->type_start)` block was not found")
+            text = re.sub(r"/\*.*?\*/", "", text, flags=re.S)
+            # the guards: `if (prog->m) { … }` or `if (prog->m) <one statement>;`
+            conds = [(c.group(1), c.start(2), c.end(2)) for c in
+                     re.finditer(r"if\s*\(prog->(\w+)\)\s*(\{.*?\}|[^;{}]*;)", text, re.S)]
             out = []
             for mm in re.finditer(r"prog->(\w+)\s*=\s*(?:\([^()]*\)\s*)?%s\s*\(prog->(\w+),\s*prog\)\s*;" % macro, text):
                 if mm.group(1) != mm.group(2):
                     raise X.TieBroken("binaries.c:%s" % fn, "member %s is assigned from member %s" % (mm.group(1), mm.group(2)))
-                out.append((mm.group(1), cond.start(1) <= mm.start() < cond.end(1)))
+                out.append((mm.group(1), next((g for g, a2, b2 in conds if a2 <= mm.start() < b2), "")))
             if len(out) != len(re.findall(r"\b%s\s*\(" % macro, text)):
                 raise X.TieBroken("binaries.c:%s" % fn, "a use of %s was not understood" % macro)
             return out
@@ -417,7 +418,7 @@ class C17(Prop):
         ops = [re.sub(r"\s+", " ", x.strip()) for x in re.findall(r"\bins_intptr\s*\(([^;]*)\)\s*;", ic)]
 
         def pairs(xs):
-            return "[" + ", ".join('("%s", %s)' % (a, "true" if b else "false") for a, b in xs) + "]"
+            return "[" + ", ".join('("%s", "%s")' % (a, b) for a, b in xs) + "]"
 
         def strs(xs):
             return "[" + ", ".join('"%s"' % x.replace('"', "'") for x in xs) + "]"
@@ -425,10 +426,10 @@ class C17(Prop):
                 "def programPointerMembers : List String := " + strs(ptrs),
                 "/-- C: the other members of `program_t` -/",
                 "def programScalarMembers : List String := " + strs(scalars),
-                "/-- C: `prog->m = DIFF (prog->m, prog)` in locate_out, in order; true = inside `if (prog->type_start)` -/",
-                "def locateOutMembers : List (String × Bool) := " + pairs(lo),
+                "/-- C: `prog->m = DIFF (prog->m, prog)` in locate_out, in order, each with the member whose being non-NULL guards it ('' = none) -/",
+                "def locateOutMembers : List (String × String) := " + pairs(lo),
                 "/-- C: `prog->m = ADD (prog->m, prog)` in locate_in -/",
-                "def locateInMembers : List (String × Bool) := " + pairs(li),
+                "def locateInMembers : List (String × String) := " + pairs(li),
                 "/-- C: the members `p->m = ...` that load_binary assigns itself -/",
                 "def loadBinaryAssigns : List String := " + strs(assigned),
                 "/-- C: every operand the code generator stores with `ins_intptr` (lib/lpc/program/icode.c) -/",
@@ -473,7 +474,7 @@ class C17(Prop):
             l = l.rstrip()
             if not l:
                 continue
-            if l.startswith("sanitizer ") and "pointer index expression" in l:
+            if l.startswith("sanitizer ") and "pointer index expression" in l and "binaries.c" not in l:
                 # recoverable UBSan report (engine: -fsanitize-recover=pointer-overflow): locate_out/locate_in do pointer
                 # arithmetic on the NULL `inherit` member of a program without inherits; whether the wrapped result is
                 # reported depends on the two block addresses.  Nothing crashed; see notes/C17.md.
